@@ -13,10 +13,19 @@ CLAIMED = {
     note="Trusted: Coq 8.16.1 kernel (vm_compute, no native_compute), no axioms (all theorems closed under the global context), srcfacts.py translator, ExtrOcamlBasic extraction + OCaml driver, g++ harness, glibc printf/atof behave as modelled (validated by the correspondence), Python float()/Fraction as oracle. The round-trip theorem for 2^-63 <= |x| is not yet proved in Coq (oracle-checked only)."),
 }
 
+def load_claims():
+    """props/<ID>.claim.json files (same keys as the CLAIMED entries) add or override claims."""
+    import glob
+    for p in sorted(glob.glob(os.path.join(VERIF, "props", "C*.claim.json"))):
+        pid = os.path.basename(p).split(".")[0]
+        CLAIMED[pid] = json.load(open(p))
+
+
 NOT_YET = "not claimed yet: the model/theorems/correspondence for this property are still being built (see DESIGN.md section 10 for the order); no check is registered rather than an unsound one"
 
 
 def main():
+    load_claims()
     checks = []
     for pid in ALL:
         if pid not in CLAIMED:
